@@ -1991,7 +1991,10 @@ class Backend:
                         subdir = os.path.join('{mandir}', 'man' + num)
                 fname = f.fname
                 if m.locale: # strip locale from file name
-                    fname = fname.replace(f'.{m.locale}', '')
+                    base, ext = os.path.splitext(fname)
+                    if base.endswith(f'.{m.locale}'):
+                        base = base[:-len(m.locale) - 1]
+                    fname = base + ext
                 srcabs = f.absolute_path(self.environment.get_source_dir(), self.environment.get_build_dir())
                 dstname = os.path.join(subdir, os.path.basename(fname))
                 dstabs = dstname.replace('{mandir}', manroot)
